@@ -152,8 +152,8 @@ pub open spec fn sr_sized(e: Expression) -> bool
             sr_sized(*lhs) && sr_sized(*rhs)
             && (if op is Piece { expr_bytes(*lhs) + expr_bytes(*rhs) <= MAXBYTES() }
                 else if is_shift_binop(op) { true }
-                else { expr_bytes(*lhs) == expr_bytes(*rhs) }),
-        Expression::UnOp { op, arg } => sr_sized(*arg),
+                else { expr_bytes(*lhs) == expr_bytes(*rhs) && ((op is BoolXOr || op is BoolAnd || op is BoolOr) ==> expr_bytes(*lhs) == 1) }),
+        Expression::UnOp { op, arg } => sr_sized(*arg) && (op is BoolNegate ==> expr_bytes(*arg) == 1),
         Expression::Cast { op, size, arg } => sr_sized(*arg) && 1 <= size.0 <= MAXBYTES(),
         Expression::Unknown { description, size } => 1 <= size.0 <= MAXBYTES(),
         Expression::Subpiece { low_byte, size, arg } => sr_sized(*arg) && 1 <= size.0 && low_byte.0 + size.0 <= expr_bytes(*arg),
@@ -340,4 +340,186 @@ pub open spec fn sr_jump_replaced(t: SrTable, old: Jmp, new: Jmp) -> bool {
         None => new == old,
         Some(e) => sr_jmp_expr(new) is Some && new == sr_jmp_with(old, sr_jmp_expr(new)->Some_0) && sr_inputs_replaced(t, e, sr_jmp_expr(new)->Some_0),
     }
+}
+
+// ---- the def-list builder ----------------------------------------------------------------------------------------------
+
+/// the name of the temporary the builder introduces for loads into sub-registers (`"loaded_value".to_string()`)
+pub open spec fn sr_tmp() -> String { choose |s: String| (#[trigger] s@) == "loaded_value"@ }
+
+pub open spec fn sr_avoids(e: Expression, tmp: String) -> bool {
+    forall |v: Variable| #![trigger sr_occurs(e, v)] sr_occurs(e, v) ==> v.name != tmp
+}
+
+/// equal memory, equal write log, equal cells except the builder's temporary
+pub open spec fn sr_sim(tmp: String, p: SrState, a: SrState) -> bool {
+    &&& p.mem == a.mem
+    &&& p.writes == a.writes
+    &&& forall |n: String| n != tmp ==> #[trigger] (p.env)(n) == (a.env)(n)
+}
+
+/// What is assumed of ONE def of the input block (well-formedness of the extractor's output w.r.t. the register table, and
+/// freshness of the builder's temporary):
+///   * a register variable lies inside its base register; a written one does not cover the base register under another name;
+///   * nothing is named like the builder's temporary;
+///   * an assignment to a register of the table is well-sized (the size of the value is the size of the variable: the
+///     `debug_assert_eq!` at the head of replace_output_subregister) and its value is well-sized by the P-Code sizing rules.
+pub open spec fn sr_def_ok(t: SrTable, tmp: String, d: Def) -> bool {
+    match d {
+        Def::Assign { var, value } =>
+            sr_outvar_ok(t, var) && var.name != tmp && sr_expr_fits(t, value) && sr_avoids(value, tmp)
+            && (t.contains_key(&var.name) ==> sr_sized(value) && expr_bytes(value) == var.size.0),
+        Def::Load { var, address } =>
+            sr_outvar_ok(t, var) && var.name != tmp && sr_expr_fits(t, address) && sr_avoids(address, tmp),
+        Def::Store { address, value } =>
+            sr_expr_fits(t, address) && sr_avoids(address, tmp) && sr_expr_fits(t, value) && sr_avoids(value, tmp),
+    }
+}
+/// all inputs of the def are plain
+pub open spec fn sr_def_inputs_plain(t: SrTable, d: Def) -> bool {
+    match d {
+        Def::Assign { var, value } => sr_plain_expr(t, value),
+        Def::Load { var, address } => sr_plain_expr(t, address),
+        Def::Store { address, value } => sr_plain_expr(t, address) && sr_plain_expr(t, value),
+    }
+}
+/// ... and so is the output: the def mentions base registers at full size and names outside the table only
+pub open spec fn sr_def_plain(t: SrTable, d: Def) -> bool {
+    sr_def_inputs_plain(t, d) && match d {
+        Def::Assign { var, value } => sr_plain_var(t, var),
+        Def::Load { var, address } => sr_plain_var(t, var),
+        Def::Store { address, value } => true,
+    }
+}
+/// `d1` is `d0` with the inputs replaced (output untouched)
+pub open spec fn sr_def_inputs_replaced(t: SrTable, d0: Def, d1: Def) -> bool {
+    match d0 {
+        Def::Assign { var, value } => d1 is Assign && d1->Assign_var == var && sr_inputs_replaced(t, value, d1->Assign_value),
+        Def::Load { var, address } => d1 is Load && d1->Load_var == var && sr_inputs_replaced(t, address, d1->Load_address),
+        Def::Store { address, value } => d1 is Store && sr_inputs_replaced(t, address, d1->Store_address) && sr_inputs_replaced(t, value, d1->Store_value),
+    }
+}
+
+/// the variable a def writes
+pub open spec fn sr_def_out(d: Def) -> Option<Variable> {
+    match d {
+        Def::Assign { var, value } => Some(var),
+        Def::Load { var, address } => Some(var),
+        Def::Store { address, value } => None,
+    }
+}
+/// the def writes a sub-register
+pub open spec fn sr_writes_sub(t: SrTable, d: Def) -> bool { sr_def_out(d) is Some && sr_needs(t, sr_def_out(d)->Some_0) }
+
+/// `next` is a cast of exactly the variable `s` into the register that is the base register of `s` (and `s` is not that base register)
+pub open spec fn sr_merge_ok(t: SrTable, s: Variable, next: Def) -> bool {
+    &&& next is Assign
+    &&& next->Assign_value is Cast
+    &&& *(next->Assign_value->Cast_arg) == Expression::Var(s)
+    &&& t.contains_key(&s.name)
+    &&& t.contains_key(&next->Assign_var.name)
+    &&& s.name != sr_base(t, s.name)
+    &&& sr_base(t, s.name) == next->Assign_var.name
+}
+/// HYPOTHESIS (finding F1): a cast that follows the write of a sub-register and targets the NAME of its base register writes the
+/// base register at FULL size
+pub open spec fn sr_no_narrow_cast(t: SrTable, d: Def, next: Def) -> bool {
+    sr_writes_sub(t, d) && sr_merge_ok(t, sr_def_out(d)->Some_0, next) ==> next->Assign_var.size.0 == (*t[&next->Assign_var.name]).size.0
+}
+pub open spec fn sr_defs_ok(t: SrTable, tmp: String, defs: Seq<Term<Def>>) -> bool {
+    &&& !t.contains_key(&tmp)
+    &&& forall |i: int| 0 <= i < defs.len() ==> sr_def_ok(t, tmp, (#[trigger] defs[i]).term)
+    &&& forall |i: int| 0 <= i && i + 1 < defs.len() ==> sr_no_narrow_cast(t, (#[trigger] defs[i]).term, defs[i + 1].term)
+}
+
+// ---- reference output of replace_output_subregister (an intermediate of the proof: lemma_sr_out_sim shows that it simulates) ---
+
+pub open spec fn sr_tmp_var(tmp: String, size: ByteSize) -> Variable { Variable { name: tmp, size: size, is_temp: true } }
+pub open spec fn sr_base_props(t: SrTable, n: String) -> RegisterProperties { *t[&sr_base(t, n)] }
+pub open spec fn sr_sub_props(t: SrTable, v: Variable) -> RegisterProperties { RegisterProperties { size: v.size, ..*t[&v.name] } }
+pub open spec fn sr_base_assign(t: SrTable, v: Variable, x: Expression) -> Def {
+    Def::Assign {
+        var: Variable { name: sr_base_props(t, v.name).register, size: sr_base_props(t, v.name).size, is_temp: false },
+        value: sr_piece_expr(x, sr_base_props(t, v.name), sr_sub_props(t, v)),
+    }
+}
+pub open spec fn sr_def_subst(next: Def, s: Variable, x: Expression) -> Def {
+    match next {
+        Def::Assign { var, value } => Def::Assign { var, value: sr_subst1(value, s, x) },
+        _ => next,
+    }
+}
+pub open spec fn sr_out_terms(t: SrTable, tmp: String, d: Def, merge: bool, next: Def) -> Seq<Def> {
+    match d {
+        Def::Assign { var, value } =>
+            if sr_needs(t, var) {
+                if merge { seq![sr_def_subst(next, var, value)] } else { seq![sr_base_assign(t, var, value)] }
+            } else { seq![d] },
+        Def::Load { var, address } =>
+            if sr_needs(t, var) {
+                let tv = sr_tmp_var(tmp, var.size);
+                if merge { seq![Def::Load { var: tv, address }, sr_def_subst(next, var, Expression::Var(tv))] }
+                else { seq![Def::Load { var: tv, address }, sr_base_assign(t, var, Expression::Var(tv))] }
+            } else { seq![d] },
+        Def::Store { address, value } => seq![d],
+    }
+}
+pub open spec fn sr_consumes(t: SrTable, d: Def, merge: bool) -> bool { merge && sr_writes_sub(t, d) }
+
+/// run a short list of defs
+pub open spec fn sr_run_terms(t: SrTable, alias: bool, ds: Seq<Def>, s: SrState) -> SrState
+    decreases ds.len()
+{
+    if ds.len() == 0 { s } else { sr_step(t, alias, ds.last(), sr_run_terms(t, alias, ds.drop_last(), s)) }
+}
+
+/// What replace_output_subregister did: `out1` is `out0` followed by the reference output for `d` (as terms; identifiers are
+/// not constrained), and one more input def was consumed iff the cast was merged.
+pub open spec fn sr_out_rel(t: SrTable, tmp: String, d: Def, defs: Seq<Term<Def>>, pos0: int, pos1: int,
+                            out0: Seq<Term<Def>>, out1: Seq<Term<Def>>, merge: bool) -> bool {
+    let next = defs[pos0].term;
+    let new = sr_out_terms(t, tmp, d, merge, next);
+    &&& (merge ==> sr_writes_sub(t, d) && pos0 < defs.len() && sr_merge_ok(t, sr_def_out(d)->Some_0, next))
+    &&& pos1 == pos0 + (if sr_consumes(t, d, merge) { 1int } else { 0int })
+    &&& out1.len() == out0.len() + new.len()
+    &&& forall |i: int| 0 <= i < out0.len() ==> #[trigger] out1[i] == out0[i]
+    &&& forall |i: int| 0 <= i < new.len() ==> (#[trigger] out1[out0.len() + i]).term == new[i]
+}
+
+/// THE CLAIM for the def list (property C11, per block): started in the same state, the emitted defs executed PLAINLY and the
+/// first `pos` input defs executed with ALIASING end in the same memory, the same write log and the same cells except the
+/// builder's temporary -- in particular the same contents of all base registers; and the emitted defs mention base registers
+/// at full size and names outside the table only.
+pub open spec fn sr_inv(t: SrTable, tmp: String, defs: Seq<Term<Def>>, pos: int, out: Seq<Term<Def>>) -> bool {
+    &&& 0 <= pos <= defs.len()
+    &&& forall |i: int| 0 <= i < out.len() ==> sr_def_plain(t, (#[trigger] out[i]).term)
+    &&& forall |s: SrState| sr_env_ok(t, s.env) ==> {
+            &&& sr_sim(tmp, #[trigger] sr_run(t, false, out, 0, out.len() as int, s), sr_run(t, true, defs, 0, pos, s))
+            &&& sr_env_ok(t, sr_run(t, true, defs, 0, pos, s).env)
+        }
+}
+
+
+// ---- the block ---------------------------------------------------------------------------------------------------------------
+
+/// What is assumed of the block handed to replace_subregister_in_block
+pub open spec fn sr_block_ok(t: SrTable, b: Blk) -> bool {
+    &&& sr_defs_ok(t, sr_tmp(), b.defs@)
+    &&& forall |i: int| 0 <= i < b.jmps@.len() ==>
+            (sr_jmp_expr((#[trigger] b.jmps@[i]).term) is Some ==> sr_expr_fits(t, sr_jmp_expr(b.jmps@[i].term)->Some_0)
+                                                                   && sr_avoids(sr_jmp_expr(b.jmps@[i].term)->Some_0, sr_tmp()))
+}
+/// PROPERTY C11 for the sub-register substitution of one block:
+///   * defs: started in the same state, the new defs executed plainly and the old defs executed with aliasing end in the same
+///     memory, the same log of memory writes and the same cells except the builder's temporary (sr_inv at the end of the block);
+///   * jumps: as many, same identifiers, same kinds and direct targets; every condition / indirect target, read plainly, has under
+///     every content of the cells the value the old one has in the aliasing reading;
+///   * only base registers at full size and names outside the table are mentioned afterwards; the hints are untouched.
+pub open spec fn sr_block_replaced(t: SrTable, old: Term<Blk>, new: Term<Blk>) -> bool {
+    &&& new.tid == old.tid
+    &&& new.term.indirect_jmp_targets == old.term.indirect_jmp_targets
+    &&& sr_inv(t, sr_tmp(), old.term.defs@, old.term.defs@.len() as int, new.term.defs@)
+    &&& new.term.jmps@.len() == old.term.jmps@.len()
+    &&& forall |i: int| 0 <= i < old.term.jmps@.len() ==>
+            (#[trigger] new.term.jmps@[i]).tid == old.term.jmps@[i].tid && sr_jump_replaced(t, old.term.jmps@[i].term, new.term.jmps@[i].term)
 }
